@@ -185,7 +185,9 @@ func c04TablePrograms() []c4prog {
 						Body: []ts.Stmt{ts.If{Cond: ts.Cmp{Op: "==", L: ts.Bin{Op: "+", Ty: ts.TInt, L: ts.Bin{Op: "*", Ty: ts.TInt, L: iv("fo"), R: il(2)}, R: iv("fi")}, R: iv("k")},
 							Then: []ts.Stmt{ts.Return{Vals: []ts.Expr{ts.Bin{Op: "+", Ty: ts.TInt, L: ts.Bin{Op: "*", Ty: ts.TInt, L: iv("fo"), R: il(10)}, R: iv("fi")}}}}}}}}},
 			ts.Return{Vals: []ts.Expr{il(-1)}}}}
-		call := func(k int64) ts.Stmt { return pr(sl("find"), ts.Call{Name: "find", Args: []ts.Expr{il(k)}, Rets: []ts.Type{ts.TInt}}) }
+		call := func(k int64) ts.Stmt {
+			return pr(sl("find"), ts.Call{Name: "find", Args: []ts.Expr{il(k)}, Rets: []ts.Type{ts.TInt}})
+		}
 		outer := func(name string) ts.Stmt {
 			return ts.For{Kind: ts.ForClause, Init: short(name, ts.TInt, b.ti(il(0))), Cond: b.tb(ts.Cmp{Op: "<", L: iv(name), R: il(3)}), Post: ts.OpAssign{Name: name, Ty: ts.TInt, Op: "+", Val: b.ti(il(1))},
 				Body: []ts.Stmt{ts.If{Cond: ts.Cmp{Op: "==", L: iv(name), R: il(1)}, Then: []ts.Stmt{ts.Break{}}}, pr(sl("in"), iv(name))}}
